@@ -137,7 +137,20 @@ func runTerm(a *args, res *result) {
 		default: // (b') one resize per round: nobody rescues a waiter that missed its wake-up
 			singleResizeRound(r, res, i)
 		}
-		if b := vshim.LockBalance(); b != 0 {
+		b := vshim.LockBalance()
+		// a janitor pass of an earlier round's cache may still be winding down (its last
+		// flush ticks are consumed asynchronously) and hold a bucket lock of its own cache
+		// for a moment: a leaked lock stays, a transient one is gone after a few yields
+		for tries := 0; b != 0 && tries < 200000; tries++ {
+			runtime.Gosched()
+			b = vshim.LockBalance()
+			if b != 0 && tries == 199999 {
+				res.count("ledger_settle_exhausted", 1)
+			} else if b == 0 {
+				res.count("ledger_transient_imbalances", 1)
+			}
+		}
+		if b != 0 {
 			res.violate(violation{Class: "hang", Sig: "mutex acquisitions and releases do not balance at a quiescent point", Msg: fmt.Sprintf("lock ledger = %d after round %d", b, i), Case: map[string]any{"case_index": i}})
 		}
 		cw1 := vshim.ReadCounters()
